@@ -47,6 +47,8 @@ function removeRewrittenSourceMap (filename) {
 function getFilePathFromName (filename) {
   const filenameParts = filename.split(path.sep)
   filenameParts.pop()
+  // a file directly under the root directory: its folder is the root, not ''
+  if (filenameParts.length === 1 && filenameParts[0] === '') return path.sep
   return filenameParts.join(path.sep)
 }
 
